@@ -183,6 +183,10 @@ func (h *Hist) bound(isObj, wantObj bool, any bool) []*Node {
 // Picks have locality: a third of the time the container the previous step worked on is chosen again, so that
 // multi-step interactions on ONE container (Sort, Reverse, Sort; Pop, Pop, Add; Set, Keys, Set) are common.
 func (h *Hist) again(wantObj, any bool) *Node {
+	if f := h.force; f != nil && f.Impl != nil && (any || f.IsObj == wantObj) {
+		// inside an observe-mutate-observe sandwich every pick that can goes to the same container
+		return f
+	}
 	if h.last != nil && h.last.Impl != nil && (any || h.last.IsObj == wantObj) && h.d.Draw("pick-again", 3) == 0 {
 		return h.last
 	}
@@ -335,6 +339,9 @@ func (h *Hist) genVal(target *Node, trees bool) (any, MVal) {
 
 // boundary index: -1, 0, mid, n-1, n, n+1, -n
 func (h *Hist) index(n int) int {
+	if h.hintIndex >= 0 && h.hintIndex < n && h.d.Draw("idx-hint", 2) == 0 {
+		return h.hintIndex
+	}
 	if h.d.Draw("idx-far", 12) == 0 {
 		return []int{n + 1000, -1000, math.MaxInt, math.MinInt, n + 7, -n - 1, 1 << 32}[h.d.Draw("idx-far-which", 7)]
 	}
@@ -359,6 +366,9 @@ func (h *Hist) index(n int) int {
 }
 
 func (h *Hist) validIndex(n int) int {
+	if h.hintIndex >= 0 && h.hintIndex < n && h.d.Draw("idx-hint", 2) == 0 {
+		return h.hintIndex
+	}
 	if n <= 0 {
 		return 0
 	}
@@ -1045,6 +1055,81 @@ func b2i(b bool) int {
 
 var getterKinds = []Kind{KObj, KList, KString, KBool, KInt, KFloat}
 
+// opSandwich: an observer, then one to three mutations of the same container, then the same observer again (a search with
+// the same needle; the mutations prefer the slot the needle was found in). Whatever an observer leaves behind inside the
+// container — an index, a sorted listing, a summary, a memoised text — has to follow every kind of mutation. With
+// independently drawn operations the exact order "read, write that slot, read the same thing" is rare, above all on the
+// bigger containers where such state usually begins to exist.
+// (filled by init: histOps itself refers to opSandwich)
+var histOpsRef []histOp
+
+func opSandwich(h *Hist) {
+	n := h.pickAny()
+	if n == nil || n.Impl == nil {
+		return
+	}
+	has := func(name string) bool { return vocab[h.prop][name] > 0 }
+	var observers, mutators []histOp
+	for _, o := range histOpsRef {
+		switch o.name {
+		case "Search", "Get", "TypeOf", "PureCalls", "Export", "GetTF", "ForEachVariants":
+			if has(o.name) {
+				observers = append(observers, o)
+			}
+		case "KeysValues":
+			if has(o.name) && n.IsObj {
+				observers = append(observers, o)
+			}
+		case "Add", "Insert", "Replace", "Delete", "Pop", "Reverse", "Sort":
+			if has(o.name) && !n.IsObj {
+				mutators = append(mutators, o)
+			}
+		case "Set", "Unset":
+			if has(o.name) && n.IsObj {
+				mutators = append(mutators, o)
+			}
+		case "Clear", "SetTF", "UnsetTF":
+			if has(o.name) {
+				mutators = append(mutators, o)
+			}
+		}
+	}
+	if len(observers) == 0 || len(mutators) == 0 {
+		return
+	}
+	obs := observers[h.d.Draw("sandwich-observer", len(observers))]
+	h.counters["probe:sandwich-"+obs.name]++
+	h.force, h.hintIndex = n, -1
+	defer func() { h.force, h.forceNeedle, h.hintIndex = nil, nil, -1 }()
+	if obs.name == "Search" {
+		var vals []MVal
+		if n.IsObj {
+			for _, k := range n.keys() {
+				vals = append(vals, n.Fields[k])
+			}
+		} else {
+			vals = n.Elems
+		}
+		if len(vals) > 0 {
+			v := vals[h.d.Draw("sandwich-needle", len(vals))]
+			h.forceNeedle = &v
+			for i, x := range vals {
+				if x.goEq(v) {
+					h.hintIndex = i // its first occurrence: where an index or a cache would point
+					break
+				}
+			}
+		}
+	}
+	obs.f(h)
+	for i, k := 0, 1+h.d.Draw("sandwich-mutations", 3); i < k && !h.dead && n.Impl != nil; i++ {
+		mutators[h.d.Draw("sandwich-mutator", len(mutators))].f(h)
+	}
+	if !h.dead && n.Impl != nil {
+		obs.f(h)
+	}
+}
+
 // opTimePasses lets simulated time go by between two operations (nothing in the properties depends on time: whatever the
 // library keeps for a while — a cache with an expiry, a deferred clean-up — must not show). The heap is compared afterwards as
 // after any other step.
@@ -1216,6 +1301,9 @@ func opTypeOf(h *Hist) {
 // genSearch draws a value to look for: an element, a scalar, a bound container, or a fresh container
 // that is structurally equal to nothing by identity.
 func (h *Hist) genSearch(vals []MVal) (any, MVal, bool) {
+	if v := h.forceNeedle; v != nil {
+		return v.goValue(), *v, false
+	}
 	switch k := h.d.Draw("search-kind", 7); {
 	case k == 6 && len(vals) > 0:
 		// the closest other value of the same kind: the next float, the int one above
